@@ -238,17 +238,17 @@ Theorem tail_chunk_inv n : chunk_inv (tail_cmd n).
 Proof. intros bs. rewrite !tail_spec. simpl. now rewrite app_nil_r. Qed.
 
 (* ---------- dedup ---------- *)
-Theorem dedup_chunk_inv H o : chunk_inv (dedup_cmd H o).
+Theorem dedup_gen_chunk_inv C H o : chunk_inv (dedup_cmd_gen C H o).
 Proof. apply row_cmd_chunk_inv. Qed.
 
 Definition plain_dedup (limit : N) (fields : list field) : dedup_opts :=
   {| d_limit := limit; d_fields := fields;
      d_consecutive := false; d_keepempty := false; d_keepevents := false |}.
 
-Lemma row_key_proj H r : forall fields acc,
-  row_key H fields r acc
+Lemma row_key_proj C H r : forall fields acc,
+  row_key C H fields r acc
   = if existsb is_null (proj fields r) then None
-    else Some (fold_left (fun a v => N.lxor a (H v)) (proj fields r) acc).
+    else Some (fold_left (fun a v => C a (H v)) (proj fields r) acc).
 Proof.
   induction fields as [|f t IH]; intros acc; simpl; [easy|].
   destruct (is_null (get r f)); simpl; [easy|]. apply IH.
@@ -274,36 +274,37 @@ Proof.
 Qed.
 
 Section DedupSpec.
+  Variable C : N -> N -> N.
   Variable H : value -> N.
   Variable limit : N.
   Variable fields : list field.
   Variable U : list tuple.
   Hypothesis limit_pos : 0 < limit.
-  Hypothesis inj_on_U : forall k k', In k U -> In k' U -> xor_key H k = xor_key H k' -> k = k'.
+  Hypothesis inj_on_U : forall k k', In k U -> In k' U -> comb_key C H k = comb_key C H k' -> k = k'.
 
   Definition dedup_inv (m : dstate) (seen : list tuple) : Prop :=
     forall k, In k U ->
-      dget m (xor_key H k) = if count_tuple k seen =? 0 then None else Some (count_tuple k seen).
+      dget m (comb_key C H k) = if count_tuple k seen =? 0 then None else Some (count_tuple k seen).
 
   Lemma dedup_fold_spec : forall rows m seen,
     (forall r, In r rows -> existsb is_null (proj fields r) = false -> In (proj fields r) U) ->
     dedup_inv m seen ->
-    snd (rows_fold (dedup_row H (plain_dedup limit fields)) m rows)
+    snd (rows_fold (dedup_row C H (plain_dedup limit fields)) m rows)
     = dedup_spec_from limit fields seen rows.
   Proof.
     induction rows as [|r rows IH]; intros m seen HU Hinv; [easy|].
     cbn [rows_fold dedup_spec_from].
     unfold dedup_row at 1. cbn [plain_dedup d_fields d_keepevents d_keepempty d_consecutive d_limit].
-    rewrite row_key_proj. fold (xor_key H (proj fields r)).
+    rewrite row_key_proj. fold (comb_key C H (proj fields r)).
     destruct (existsb is_null (proj fields r)) eqn:En.
     - specialize (IH m seen).
-      destruct (rows_fold (dedup_row H (plain_dedup limit fields)) m rows) as [s2 o2] eqn:E2.
+      destruct (rows_fold (dedup_row C H (plain_dedup limit fields)) m rows) as [s2 o2] eqn:E2.
       simpl. simpl in IH. apply IH; [|easy]. intros; apply HU; [now right | easy].
     - set (k := proj fields r) in *.
       assert (Hk : In k U) by (apply HU; [now left | easy]).
-      assert (Hinv' : dedup_inv (dincr m (xor_key H k)) (k :: seen)).
+      assert (Hinv' : dedup_inv (dincr m (comb_key C H k)) (k :: seen)).
       { intros k' Hk'. simpl.
-        destruct (N.eq_dec (xor_key H k') (xor_key H k)) as [Ee|Ee].
+        destruct (N.eq_dec (comb_key C H k') (comb_key C H k)) as [Ee|Ee].
         - assert (k' = k) by now apply inj_on_U. subst k'.
           rewrite dget_dincr_same, (Hinv k Hk), tuple_eqb_refl.
           destruct (N.eqb_spec (count_tuple k seen) 0) as [E0|E0].
@@ -311,8 +312,8 @@ Section DedupSpec.
           + replace (1 + count_tuple k seen =? 0) with false by lia. f_equal. lia.
         - rewrite dget_dincr_other by easy. rewrite (Hinv k' Hk').
           rewrite tuple_eqb_neq by congruence. easy. }
-      specialize (IH (dincr m (xor_key H k)) (k :: seen)).
-      destruct (rows_fold (dedup_row H (plain_dedup limit fields)) (dincr m (xor_key H k)) rows) as [s2 o2] eqn:E2.
+      specialize (IH (dincr m (comb_key C H k)) (k :: seen)).
+      destruct (rows_fold (dedup_row C H (plain_dedup limit fields)) (dincr m (comb_key C H k)) rows) as [s2 o2] eqn:E2.
       simpl in IH. simpl snd.
       rewrite (Hinv k Hk).
       assert (IH' : o2 = dedup_spec_from limit fields (k :: seen) rows).
@@ -325,13 +326,13 @@ Section DedupSpec.
   Qed.
 End DedupSpec.
 
-Lemma keys_injective_sound H : forall ks, keys_injective H ks = true ->
-  forall k k', In k ks -> In k' ks -> xor_key H k = xor_key H k' -> k = k'.
+Lemma keys_injective_sound C H : forall ks, keys_injective C H ks = true ->
+  forall k k', In k ks -> In k' ks -> comb_key C H k = comb_key C H k' -> k = k'.
 Proof.
   induction ks as [|a ks IH]; intros Hinj k k' Hk Hk' E; [easy|].
   simpl in Hinj. apply andb_true_iff in Hinj as [Ha Hr].
   rewrite forallb_forall in Ha.
-  assert (Haux : forall x, In x ks -> xor_key H a = xor_key H x -> a = x).
+  assert (Haux : forall x, In x ks -> comb_key C H a = comb_key C H x -> a = x).
   { intros x Hx Ex. specialize (Ha x Hx). rewrite Ex, N.eqb_refl in Ha. simpl in Ha.
     now apply tuple_eqb_eq. }
   destruct Hk as [<-|Hk], Hk' as [<-|Hk']; [easy | now apply Haux | | now apply IH].
@@ -340,14 +341,14 @@ Qed.
 
 (* dedup N f1 f2 .. = the first N rows of every distinct combination of values,
    order kept — provided the XOR keys of the combinations in the input do not collide *)
-Theorem dedup_spec_guarded H limit fields bs :
+Theorem dedup_gen_spec_guarded C H limit fields bs :
   0 < limit ->
-  keys_injective H (nonnull_tuples fields (concat bs)) = true ->
-  run (dedup_cmd H (plain_dedup limit fields)) bs = dedup_spec limit fields (concat bs).
+  keys_injective C H (nonnull_tuples fields (concat bs)) = true ->
+  run (dedup_cmd_gen C H (plain_dedup limit fields)) bs = dedup_spec limit fields (concat bs).
 Proof.
-  intros Hl Hinj. unfold dedup_cmd. rewrite row_cmd_run. rewrite app_nil_r.
-  apply (dedup_fold_spec H limit fields (nonnull_tuples fields (concat bs)) Hl
-           (keys_injective_sound H _ Hinj)).
+  intros Hl Hinj. unfold dedup_cmd_gen. rewrite row_cmd_run. rewrite app_nil_r.
+  apply (dedup_fold_spec C H limit fields (nonnull_tuples fields (concat bs)) Hl
+           (keys_injective_sound C H _ Hinj)).
   - intros r Hr Hn. unfold nonnull_tuples. apply filter_In. split.
     + now apply in_map.
     + now rewrite Hn.
@@ -359,13 +360,13 @@ Definition fa : field := [97]. Definition fb : field := [98].
 Definition vx : value := VStr [120]. Definition vy : value := VStr [121].
 Definition xy_rows : batch := [ [(fa, vx); (fb, vy)]; [(fa, vy); (fb, vx)]; [(fa, vx); (fb, vy)] ].
 
-Lemma dedup_xy_run H : run (dedup_cmd H (plain_dedup 1 [fa; fb])) [xy_rows] = [ [(fa, vx); (fb, vy)] ].
+Lemma dedup_xy_run H : run (dedup_cmd_xor H (plain_dedup 1 [fa; fb])) [xy_rows] = [ [(fa, vx); (fb, vy)] ].
 Proof.
   remember (N.lxor (H vx) (H vy)) as h eqn:Eh.
-  assert (K1 : row_key H [fa; fb] [(fa, vx); (fb, vy)] 0 = Some h) by (subst h; reflexivity).
-  assert (K2 : row_key H [fa; fb] [(fa, vy); (fb, vx)] 0 = Some h).
+  assert (K1 : row_key N.lxor H [fa; fb] [(fa, vx); (fb, vy)] 0 = Some h) by (subst h; reflexivity).
+  assert (K2 : row_key N.lxor H [fa; fb] [(fa, vy); (fb, vx)] 0 = Some h).
   { subst h. cbn. f_equal. apply N.lxor_comm. }
-  unfold dedup_cmd. rewrite row_cmd_run. unfold xy_rows. cbn [concat app rows_fold].
+  unfold dedup_cmd_xor, dedup_cmd_gen. rewrite row_cmd_run. unfold xy_rows. cbn [concat app rows_fold].
   unfold dedup_row. cbn [plain_dedup d_fields d_keepevents d_keepempty d_consecutive d_limit].
   rewrite K1, K2. clear K1 K2 Eh.
   cbn [dget dincr]. rewrite !N.eqb_refl. cbn [dget dincr]. rewrite !N.eqb_refl.
@@ -373,10 +374,31 @@ Proof.
 Qed.
 
 Theorem dedup_xor_refuted : forall H : value -> N, exists fields rows,
-  run (dedup_cmd H (plain_dedup 1 fields)) [rows] <> dedup_spec 1 fields rows.
+  run (dedup_cmd_xor H (plain_dedup 1 fields)) [rows] <> dedup_spec 1 fields rows.
 Proof.
   intros H. exists [fa; fb], xy_rows. rewrite dedup_xy_run. vm_compute. discriminate.
 Qed.
+
+(* the code (order-sensitive combination of the field hashes) *)
+Theorem dedup_chunk_inv H o : chunk_inv (dedup_cmd H o).
+Proof. apply dedup_gen_chunk_inv. Qed.
+Theorem dedup_xor_chunk_inv H o : chunk_inv (dedup_cmd_xor H o).
+Proof. apply dedup_gen_chunk_inv. Qed.
+
+Theorem dedup_spec_guarded H limit fields bs :
+  0 < limit ->
+  keys_injective fnv_step H (nonnull_tuples fields (concat bs)) = true ->
+  run (dedup_cmd H (plain_dedup limit fields)) bs = dedup_spec limit fields (concat bs).
+Proof. apply dedup_gen_spec_guarded. Qed.
+
+(* the rows that the XOR key confused are told apart now, for any hash with H x <> H y
+   whose two order-sensitive keys differ; e.g. hash = first byte *)
+Definition first_byte_hash (v : value) : N := match v with VStr (c :: _) => c | _ => 0 end.
+Theorem dedup_xy_fixed :
+  keys_injective fnv_step first_byte_hash (nonnull_tuples [fa; fb] xy_rows) = true
+  /\ run (dedup_cmd first_byte_hash (plain_dedup 1 [fa; fb])) [xy_rows] = firstn 2 xy_rows
+  /\ run (dedup_cmd first_byte_hash (plain_dedup 1 [fa; fb])) [xy_rows] = dedup_spec 1 [fa; fb] xy_rows.
+Proof. repeat split; vm_compute; reflexivity. Qed.
 
 (* ---------- top / rare, stats by ---------- *)
 Theorem toprare_chunk_inv is_top limit fields countf : chunk_inv (toprare_cmd is_top limit fields countf).
@@ -799,23 +821,30 @@ Qed.
 (* ---------- the planner ---------- *)
 Lemma can_parallel_from_sound : forall ks i0 i,
   can_parallel_from false i0 (map flags_of ks) = (true, i) ->
-  (i0 <= i)%nat /\ nth_error ks (i - i0) = Some KAgg /\ Forall (fun k => k = KRowwise) (firstn (i - i0) ks).
+  (i0 <= i)%nat /\ nth_error ks (i - i0) = Some KAgg /\ Forall (fun k => k = KRowwise) (firstn (i - i0) ks)
+  /\ Forall (fun k => k <> KTwoPass) (skipn (S (i - i0)) ks).
 Proof.
   induction ks as [|k ks IH]; intros i0 i H; [discriminate|].
   destruct k; simpl in H; try discriminate.
-  - apply IH in H as (Hle & Hn & Hf).
-    split; [lia|]. replace (i - i0)%nat with (S (i - S i0)) by lia. simpl. split; [easy|]. now constructor.
-  - inversion H; subst. rewrite Nat.sub_diag. simpl. repeat split; [lia | constructor].
+  - apply IH in H as (Hle & Hn & Hf & Hs).
+    split; [lia|]. replace (i - i0)%nat with (S (i - S i0)) by lia. simpl. split; [easy|]. split; [now constructor | easy].
+  - inversion H as [[Hb Hi]]; subst. rewrite Nat.sub_diag. simpl. repeat split; [lia | constructor |].
+    apply negb_true_iff in Hb. apply Forall_forall. intros k Hk ->.
+    assert (E : existsb i_twopass (map flags_of ks) = true).
+    { apply existsb_exists. exists (flags_of KTwoPass). split; [now apply in_map | easy]. }
+    congruence.
 Qed.
 
 (* the planner splits the chain only in front of an order-insensitive aggregation and only
    over row-wise commands: never over head/dedup/streamstats/tail, a generator, or a
-   two-pass command (bin without span, fillnull without fields) *)
+   two-pass command (bin without span, fillnull without fields) — and not at all when a
+   two-pass command follows the aggregation (it would rewind the merged chains) *)
 Theorem planner_sound ks i :
   can_parallel (map flags_of ks) = (true, i) ->
-  nth_error ks i = Some KAgg /\ Forall (fun k => k = KRowwise) (firstn i ks).
+  nth_error ks i = Some KAgg /\ Forall (fun k => k = KRowwise) (firstn i ks)
+  /\ Forall (fun k => k <> KTwoPass) (skipn (S i) ks).
 Proof.
-  intros H. apply can_parallel_from_sound in H as (_ & Hn & Hf). now rewrite Nat.sub_0_r in *.
+  intros H. apply can_parallel_from_sound in H as (_ & Hn & Hf & Hs). now rewrite Nat.sub_0_r in *.
 Qed.
 
 (* ---------- the parallel plan for a mergeable aggregation ---------- *)
